@@ -164,7 +164,7 @@ def brentsroot(f, bounds, tol=None, verbose=False, return_interval=False):
             a, b = b, a
             fa, fb = fb, fa
         conv = (fb == 0 or fs == 0 or D.ar_numpy.abs(b - a) < tol * D.ar_numpy.maximum(1.0, D.ar_numpy.abs(b)))
-        if numiter >= 64:
+        if numiter >= 256:
             break
     if verbose:
         with numpy.printoptions(precision=17, linewidth=200):
@@ -309,7 +309,7 @@ def brentsrootvec(f, bounds, tol=None, verbose=False, return_interval=False, acc
         fa[mask], fb[mask] = fb[mask], fa[mask]
 
         conv = D.ar_numpy.logical_not(D.ar_numpy.logical_or(D.ar_numpy.logical_or(fb == 0, fs == 0), D.ar_numpy.abs(b - a) < tol * D.ar_numpy.maximum(1.0, D.ar_numpy.abs(b))))
-        conv = conv & (numiter <= 64)
+        conv = conv & (numiter <= 256)
         not_conv = D.ar_numpy.logical_not(conv)
         # success: the residual vanishes, or the bracket [a, b] still straddles a sign change and has converged
         true_conv = (D.ar_numpy.abs(fb) <= tol) | ((D.ar_numpy.abs(b - a) < tol * D.ar_numpy.maximum(1.0, D.ar_numpy.abs(b))) & (D.ar_numpy.sign(fa) * D.ar_numpy.sign(fb) <= 0))
